@@ -92,6 +92,12 @@ def functions(docs, kinds=('CXXMethodDecl', 'FunctionDecl', 'CXXConstructorDecl'
             visit(c)
     for d in docs:
         visit(d)
+    # out-of-line member definitions of a class template are dumped as (dependent) patterns next to their instantiations: keep the instantiated ones
+    DEP = ('CXXDependentScopeMemberExpr', 'UnresolvedLookupExpr', 'UnresolvedMemberExpr', 'DependentScopeDeclRefExpr', 'CXXUnresolvedConstructExpr')
+    for name, lst in out.items():
+        conc = [f for f in lst if not any(x.get('kind') in DEP for x in walk(f))]
+        if conc and len(conc) < len(lst):
+            out[name] = conc
     return out
 
 
@@ -1277,6 +1283,11 @@ class Exec:
             return s.membercall(n)
         if k == 'CallExpr':
             return s.call(n)
+        if k == 'CXXNewExpr':
+            ce = [c for c in n.get('inner', []) if c.get('kind') in ('CXXConstructExpr', 'CXXTemporaryObjectExpr')]
+            if ce:
+                return s.construct(ce[0])
+            raise Unsupported('new-expression without constructor')
         if k == 'UnaryExprOrTypeTraitExpr':
             raise Unsupported('sizeof/alignof')
         raise Unsupported('unsupported AST node %s at line %s' % (k, src_line(n)))
@@ -1401,7 +1412,11 @@ class Exec:
                 s.store(args[0], nv)
             return args[0]
         if op in ('operator*', 'operator->') and len(args) == 1:
-            return args[0]      # smart pointer / iterator dereference: the pointee
+            if isinstance(a0, ListIt):
+                if not (0 <= a0.i < len(a0.lst)):
+                    raise Unsupported('dereference of an iterator outside its container')
+                return Ref(lambda it=a0, i=a0.i: it.lst[i], lambda v, it=a0, i=a0.i: it.lst.__setitem__(i, v))
+            return args[0]      # smart pointer dereference: the pointee
         if op == 'operator-' and len(args) == 1:
             return -a0
         if op in ('operator++', 'operator--'):
@@ -1497,6 +1512,10 @@ class Exec:
                 del obj[k:]
                 return None
             if name == 'reserve': return None
+        if isinstance(obj, str):
+            if name in ('c_str', 'data', 'str'): return obj
+            if name in ('size', 'length'): return len(obj)
+            if name == 'empty': return len(obj) == 0
         if hasattr(obj, 'call'):
             return obj.call(name, args)
         if hasattr(obj, name) and callable(getattr(obj, name)):
